@@ -1,15 +1,16 @@
 /-
 T1 tie (DESIGN.md 1.3) of `circuit.bitLen` (circuit/ioarg.go) to the C13 model
-Model/IoArg.lean: the definition of MpcVerif/Gen/Leaf.lean, regenerated from the
+Model/IoArg.lean: the definition of MpcVerif/Gen/LeafC13.lean, regenerated from the
 current Go source by `gofacts translate` on every run of checks/t1.py, equals
 `Mpc.IoArg.bitLen` (the loop with an early return is a fold whose state records
 the returned value).  Core Lean only.
 -/
-import MpcVerif.Proofs.GenTie
+import MpcVerif.Gen.LeafC13
+import MpcVerif.Proofs.GenTieLib
 import MpcVerif.Model.IoArg
 
 namespace Mpc.GenTie
-open Mpc Mpc.Gen
+open Mpc Mpc.Gen Mpc.Gen.C13
 
 
 theorem and_shl_one_ne_zero (v : BitVec 64) (n : Nat) (hn : n < 64) :
@@ -67,14 +68,14 @@ theorem bl_final (v : BitVec 64) (F : Option (BitVec 64) → Nat → Option (Bit
 theorem ofNat_down_toNat (c k : Nat) (hc : c < 2^64) : (BitVec.ofNat 64 (c - k)).toNat = c - k := by
   simp only [BitVec.toNat_ofNat]; omega
 
-theorem tie_bitLen (v : BitVec 64) : (Gen.bitLen v).toNat = Mpc.IoArg.bitLen v.toNat := by
-  unfold Gen.bitLen
+theorem tie_bitLen (v : BitVec 64) : (Gen.C13.bitLen v).toNat = Mpc.IoArg.bitLen v.toNat := by
+  unfold Gen.C13.bitLen
   dsimp only
   refine bl_final v _ (fun st k hk => ?_)
   have hget : ∀ n, v.getLsbD n = v.toNat.testBit n := fun _ => rfl
   simp only [blStep, ofNat_down_toNat 63 k (by omega), and_shl_one_ne_zero v (63 - k) (by omega),
     and_one_ne_zero, and_one_eq_one, hget]
 
-example : Gen.bitLen 0#64 = 1#64 ∧ Gen.bitLen 3#64 = 2#64 ∧ Gen.bitLen 0x8000000000000000#64 = 64#64 := by decide +kernel
+example : Gen.C13.bitLen 0#64 = 1#64 ∧ Gen.C13.bitLen 3#64 = 2#64 ∧ Gen.C13.bitLen 0x8000000000000000#64 = 64#64 := by decide +kernel
 
 end Mpc.GenTie
